@@ -215,7 +215,13 @@ def scripts(cs):
         dict(op='rename', path='/a.dir', target='/a.dir/in/x'), dict(op='rename', path='/a.dir', target='/A.DIR/in/x'),
         dict(op='rename', path='/a.dir', target='/A.DIR/IN'), dict(op='rename', path='/A.DIR', target='/a.dir/new'),
         dict(op='rename', path='/a.dir/in', target='/A.DIR/IN/deeper'), dict(op='rename', path='/a.dir', target='/b.dir'),
-        dict(op='rename', path='/b.dir/in', target='/in')]
+        dict(op='rename', path='/b.dir/in', target='/in'),
+        # the same through a name that is equal only after upper-casing, and through the 8.3 alias
+        dict(op='mkdir', path='/straße'), dict(op='mkdir', path='/straße/sub'), W('/straße/sub/f', blob(9, 11)),
+        dict(op='rename', path='/straße', target='/STRASSE/inner'), dict(op='rename', path='/straße', target='/STRASSE/SUB/inner'),
+        dict(op='mkdir', path='/a long directory name'), W('/a long directory name/g', blob(cs, 12)),
+        dict(op='rename', path='/a long directory name', target='/ALONGD~1/inner', _expect='EINVAL'),
+        dict(op='rename', path='/a long directory name', target='/elsewhere')]
     yield 'growth-from-empty-and-far-seeks', [
         dict(op='touch', path='/t'), dict(op='truncate', path='/t', size=2 * cs + 1, buffering=0),
         dict(op='touch', path='/u'), dict(op='append', path='/u', data=blob(cs, 8)),
@@ -249,7 +255,8 @@ def run_scripts(ctx, R, FatFileSystem):
                     for op in ops:
                         jop = jsonable_op(op)
                         history.append(jop)
-                        want = fatops.apply_model(t, op)
+                        # `_expect`: an outcome the plain model cannot derive (it does not know 8.3 aliases); the tree must not change
+                        want = op['_expect'] if '_expect' in op else fatops.apply_model(t, op)
                         got = fatops.apply_impl(fs, op)
                         ctx.stat('script-op-' + op['op'])
                         if want != got:
